@@ -478,6 +478,7 @@ type Clause struct {
 	Loop  int
 	Line  int
 	File  string
+	Assumed bool // ensures!: used by callers, not proved for the body (unchecked assumption)
 }
 
 type SpecFunc struct {
@@ -537,6 +538,7 @@ type Lemma struct {
 	Reveal  []string
 	Hints   []string
 	Uses    []string
+	Axiom   bool // assumed, not proved (listed as an unchecked assumption)
 }
 
 // DataInv: an invariant of every non-nil *T that reaches a function as a
@@ -582,7 +584,7 @@ type Congruence struct {
 	File                     string
 }
 
-var clauseKeywords = []string{"assume", "congruence", "spec", "func", "extern", "requires", "ensures", "assigns", "loop", "lemma",
+var clauseKeywords = []string{"axiom", "assume", "congruence", "spec", "func", "extern", "requires", "ensures!", "ensures", "assigns", "loop", "lemma",
 	"use", "props", "inline", "trusted", "pure", "functional", "nosafety", "globalinv", "datainv", "reveal", "hint", "opt"}
 
 func startsClause(s string) (string, bool) {
@@ -667,9 +669,9 @@ func (c *Contracts) ParseContractText(text, file, pkgPath string) error {
 			c.Funcs[k] = fc
 			c.FuncOrd = append(c.FuncOrd, k)
 			cur, curLemma = fc, nil
-		case "lemma":
+		case "lemma", "axiom":
 			label, props, body := splitLabel(rest)
-			lm := &Lemma{Label: label, Props: props, Pkg: pkgPath, Line: rc.line, File: file}
+			lm := &Lemma{Label: label, Props: props, Pkg: pkgPath, Line: rc.line, File: file, Axiom: kw == "axiom"}
 			if strings.HasPrefix(body, "by induction on ") {
 				r := strings.TrimPrefix(body, "by induction on ")
 				k := strings.Index(r, "::")
@@ -774,13 +776,17 @@ func (c *Contracts) ParseContractText(text, file, pkgPath string) error {
 					return errf("%v", err)
 				}
 				cur.Assumes = append(cur.Assumes, &Clause{Kind: "assume", Src: rest, E: e, Line: rc.line, File: file})
-			case "requires", "ensures":
+			case "requires", "ensures", "ensures!":
+				assumed := kw == "ensures!"
+				if assumed {
+					kw = "ensures"
+				}
 				label, props, body := splitLabel(rest)
 				e, err := parseExpr(body)
 				if err != nil {
 					return errf("%v", err)
 				}
-				cl := &Clause{Kind: kw, Label: label, Props: props, Src: body, E: e, Line: rc.line, File: file}
+				cl := &Clause{Kind: kw, Label: label, Props: props, Src: body, E: e, Line: rc.line, File: file, Assumed: assumed}
 				if kw == "requires" {
 					cur.Requires = append(cur.Requires, cl)
 				} else {
@@ -836,7 +842,8 @@ func splitLabel(s string) (label string, props []string, rest string) {
 		return "", nil, strings.TrimSpace(s[k+1:])
 	}
 	// a label looks like Cnn:name; otherwise it is not a label (e.g. a range)
-	if !(len(parts[0]) >= 3 && parts[0][0] == 'C' && parts[0][1] >= '0' && parts[0][1] <= '9') {
+	if !(len(parts[0]) >= 3 && parts[0][0] >= 'A' && parts[0][0] <= 'Z' && strings.Contains(parts[0], ":")) &&
+		!(len(parts[0]) >= 3 && parts[0][0] == 'C' && parts[0][1] >= '0' && parts[0][1] <= '9') {
 		return "", nil, s
 	}
 	label = parts[0]
